@@ -1347,3 +1347,8 @@ mod tests {
         );
     }
 }
+
+#[cfg(kani)]
+mod verif_kani {
+    include!(concat!(env!("IPA_VERIF_DIR"), "/kani/transpose.rs"));
+}
